@@ -39,6 +39,8 @@ package pluginregistry
 //@   modifies checkFailures, getPathValuesCalls, lastGetPathValuesPrefix
 //@   ensures getPathValuesCalls == old(getPathValuesCalls) + 1 && lastGetPathValuesPrefix == pathPrefix
 //@   ensures checkFailures == old(checkFailures) + ite(err == nil, 0, 1)
+// the answer is decoded from the wire: a repeated message field holds no nil element
+//@   ensures forall e in values :: e != nil
 //@   fresh values
 
 // The document handed to Validate reaches the plugin whole: the chunks are consecutive, non-empty
